@@ -602,8 +602,8 @@ WEIGHT_KINDS = {
     "y": lambda x, y: y,
     "x": lambda x, y: x,
     "const": lambda x, y: np.full(len(x), 2.0),
-    "1/y": lambda x, y: 1.0 / np.asarray(y),
-    "y^2": lambda x, y: np.asarray(y) ** 2,
+    "1/y": lambda x, y: np.mean(y) / np.asarray(y),
+    "y^2": lambda x, y: (np.asarray(y) / np.mean(y)) ** 2,
 }
 
 
@@ -844,10 +844,9 @@ def fit_oracle(case, impl):
     scale = float(np.sum((y / sigma) ** 2)) if sigma is not None else float(np.sum(y * y))
     atol = 1e-8 * scale + 1e-300  # gtol-type termination: absolute in units of the data
     if cons is not None:
-        # SLSQP stops on an absolute change of the objective (scipy default ftol = 1e-6); quadratic
-        # objectives (linear shapes) are solved far more accurately than that, ill-conditioned
-        # non-linear ones are not
-        atol += 1e-5 if linear else 1e-4
+        # SLSQP stops on an absolute change of the objective between iterations (scipy default
+        # ftol = 1e-6); the distance to the optimum observed on the repaired code is up to ~2e-5
+        atol += 1e-4
     # 3. not worse than the start
     if admissible(p0):
         f0 = obj_impl(p0)
@@ -870,7 +869,10 @@ def fit_oracle(case, impl):
                 e[a], e[b] = sa, sb
                 dirs.append(e)
     nadm = 0
-    for rel in (1e-1, 1e-2, 1e-3, 1e-4):
+    # with finite bounds curve_fit uses 'trf', which stagnates at a relative distance ~1e-4 from an
+    # optimum that lies on a bound; "nearby" is therefore 1e-3..1e-1 there and 1e-4..1e-1 otherwise
+    rels = (1e-1, 1e-2, 1e-3) if (case["bounds"] is not None and cons is None) else (1e-1, 1e-2, 1e-3, 1e-4)
+    for rel in rels:
         for e in dirs:
             q = p + rel * e * np.maximum(1.0, np.abs(p))
             if not admissible(q):
@@ -912,11 +914,13 @@ def fit_oracle(case, impl):
                 ev = np.linalg.eigvalsh((rows_f * wf[:, None]).T @ rows_f)
                 lam = float(ev[0])
                 info["cond"] = float(ev[-1] / max(lam, 1e-300))
-                ptol = 1e-6 * (1 + float(np.max(np.abs(solf)))) + 10 * np.sqrt(1e-7 * (fs + atol) / max(lam, 1e-300))
+                # curve_fit also stops on an absolute gradient norm (gtol = 1e-8): excess <= gtol^2 / lambda_min
+                gexc = 10 * npar * 1e-16 / max(lam, 1e-300)
+                ptol = 1e-6 * (1 + float(np.max(np.abs(solf)))) + 10 * np.sqrt((1e-7 * (fs + atol) + gexc) / max(lam, 1e-300))
                 info["excess"] = (fp - fs) / (fs + atol)
                 if info["cond"] > 1e7:
                     info["ill_conditioned"] = True  # "unique solution" is numerically meaningless
-                elif not (bool(np.all(np.abs(p - solf) <= ptol)) and fp <= fs * (1 + 1e-6) + atol):
+                elif not (bool(np.all(np.abs(p - solf) <= ptol)) and fp <= fs * (1 + 1e-6) + atol + gexc):
                     bad.append(("linear_shape_is_least_squares_solution",
                                 f"parameters {list(p)} (residual {fp!r}) but the exact least-squares solution is "
                                 f"{list(solf)} (residual {fs!r})"))
